@@ -18,7 +18,9 @@ CFG = dict(
          "at most one acquisition step pending, nextBlock closed once). `holdStop` (2 cases in quick: the core loop is held at a gate - in front of its select / right after taking a "
          "block - for 3.2-3.8 s while a Stop call is pending; Stop must not return during the hold; then release, post-conditions, restart). `abacoSelfEnd` (1 case in quick: the scripted packet stream of the real AbacoSource stops "
          "and nobody calls Stop; the reader's 5 s no-data time-out must end the run cleanly - Inactive within 7.5 s, devices released, restartable; the loop is held 300 ms at "
-         "loop.processed after the last block so the order of the two 5 s timers does not depend on load). After every failed Start the real "
+         "loop.processed after the last block so the order of the two 5 s timers does not depend on load). `cfgErr` (2 cases in quick: the Lancero source on a simulated card through the real "
+         "ConfigureLanceroSource / Start / Stop: rejected configurations (unknown card, duplicate card), optionally a failing Start, then a valid configuration and a "
+         "Start that must succeed; replies compared with the remembered-configuration-error automaton). After every failed Start the real "
          "object's completion barrier is observed (runDone.Wait() returns? run-done channel closed?) and judged: Inactive <-> counter 0. The logged "
          "trace must be a run of the Lean transition system; return values, GetState(), goroutine census, writing flag and UDP-port re-bindability "
          "must equal the model's and satisfy the property oracle; a watchdog turns a hang into the output `hang 1`. Non-trivial = at least two "
@@ -68,6 +70,8 @@ THEOREMS = [
     ("DastardV.Props.C10", "DastardV.C10.C10_one_acquisition_step"),
     ("DastardV.Props.C10", "DastardV.C10.C10_request_keeps_step"),
     ("DastardV.Props.C10", "DastardV.C10.C10_self_close_once"),
+    ("DastardV.Props.C10", "DastardV.C10.C10_valid_configure_clears_error"),
+    ("DastardV.Props.C10", "DastardV.C10.C10_rejected_configure_blocks_start"),
     ("DastardV.Props.C10", "DastardV.C10.C10_stop_decision_atomic"),
     ("DastardV.Props.C10", "DastardV.C10.C10_switch_from_active"),
     ("DastardV.Props.C10", "DastardV.C10.C10_no_stuck_state"),
@@ -98,5 +102,6 @@ HOOKS = [
     "3ce7ba1 VerifLoopSource.VerifFailStartRun, VerifRunDoneState",
     "95def7f stop.onActive site (inside Stop's locked decision)",
     "79a6d14 asm.spawn / asm.send / asm.close sites in AbacoSource.getNextBlock (uses the C17 hook VerifC17Abaco for the scripted producer)",
+    "7938c7e VerifStatusLengths; e4e4126 VerifSetCringeGlobalsPath (the Lancero configure histories also use the C17 hooks VerifC17Sources / VerifC17Lancero)",
     "75f5771, dd9a4df sc.start.enter/.refused/.failed, sc.flagOn, sc.stop.enter/.notActive, sc.refreshed sites; VerifActiveSource",
 ]
